@@ -98,7 +98,13 @@ fn draw_hosts(rng: &mut Rng, cert_base: usize) -> Hosts {
                     hostname: name.to_string(),
                     cert: c,
                     allowed_sni: if alt && rng.chance(1, 3) {
-                        vec![format!("alt{}.{}", rng.below(3), *rng.pick(&["cdn.test", "vpn.example", "example"]))]
+                        // now and then a bare name of which another host's alternative is a
+                        // one-label extension (alt0.cdn.test next to cdn.test)
+                        if rng.chance(1, 4) {
+                            vec![(*rng.pick(&["cdn.test", "front.example"])).to_string()]
+                        } else {
+                            vec![format!("alt{}.{}", rng.below(3), *rng.pick(&["cdn.test", "vpn.example", "example", "front.example"]))]
+                        }
                     } else {
                         vec![]
                     },
@@ -211,7 +217,17 @@ fn draw_sni(rng: &mut Rng, hosts: &[&Hosts]) -> Option<String> {
     match rng.below(10) {
         0 => None,
         1 => Some("unknown.test".into()),
-        2 | 3 => Some(format!("creds-canary-{}.{}", rng.below(5), rng.pick(&h.main).hostname)),
+        2 => Some(format!("creds-canary-{}.{}", rng.below(5), rng.pick(&h.main).hostname)),
+        3 => {
+            // the credentials form belongs to host names only: in front of an alternative SNI
+            // (or of a service host's name) it designates nothing
+            let alts: Vec<&String> = h.main.iter().flat_map(|m| m.allowed_sni.iter()).collect();
+            match (rng.below(3), alts.is_empty()) {
+                (0, false) => Some(format!("creds-canary-{}.{}", rng.below(5), rng.pick(&alts))),
+                (1, _) if all.len() > h.main.len() => Some(format!("creds-canary-{}.{}", rng.below(5), rng.pick(&all[h.main.len()..]).hostname)),
+                _ => Some(format!("creds-canary-{}.{}", rng.below(5), rng.pick(&h.main).hostname)),
+            }
+        }
         4 => {
             let alts: Vec<&String> = h.main.iter().flat_map(|m| m.allowed_sni.iter()).collect();
             if alts.is_empty() { Some(rng.pick(&all).hostname.clone()) } else { Some((*rng.pick(&alts)).clone()) }
